@@ -278,7 +278,9 @@ class Check:
         ev = {'property_id': self.pid, 'tier': self.tier, 'seed': self.seed, 'level': level, 'coverage': cov,
               'assumptions': self.assumptions, 'wall_s': round(time.time() - self.t0, 2),
               'violations': len(self.violations) + (1 if (self.broken and not self.violations) else 0)}
-        with open(os.path.join(VERIF, 'evidence', f'{self.pid}.json'), 'w') as f:
+        evdir = os.environ.get('VERIF_EVIDENCE_DIR') or os.path.join(VERIF, 'evidence')   # seeded-change runs write elsewhere
+        os.makedirs(evdir, exist_ok=True)
+        with open(os.path.join(evdir, f'{self.pid}.json'), 'w') as f:
             json.dump(ev, f, indent=1, default=str)
         for l in lines: print(l)
         print(f'[{self.pid}] tier={self.tier} seed={self.seed} theorems={n_ok}/{n_ob} cases={self.evals} '
